@@ -78,6 +78,13 @@ fn main() {
         }
     }
     let ctx = Ctx::new(&id, tier);
+    if replay.is_none() {
+        let budget = std::env::var("VERIF_BUDGET_S").ok().and_then(|s| s.parse().ok()).unwrap_or(match tier {
+            Tier::Quick => 420,
+            Tier::Thorough => 5400,
+        });
+        speclib::report::watchdog(id.clone(), tier, budget);
+    }
     let code = match replay {
         Some(path) => props::replay(&ctx, &path),
         None => {
